@@ -15,12 +15,10 @@ import SeaQ.Gen.Policy
   crate (`Gen/Policy`, regenerated on every run: every outer operator x child kind x side)
   against the dialect tables of `Model/Dialects` (the specification).
 
-Status on the current tree: the BETWEEN-bounds defect found by this obligation was repaired
-in sea-query (`fix:` a5a273d).  SQLite and Postgres are proved in full.  For MySQL one family
-of cells is not licensed — a bare arithmetic / shift pattern after LIKE (`a LIKE b + c` is
-`(a LIKE b) + c` in MySQL, whose LIKE pattern must be a simple_expr): `mysqlCellsGuarded`
-clears exactly those cells, the theorem is stated for trees that do not exercise them
-(`mysql_partial`), and the finding is recorded in `known_findings.json`.
+Status on the current tree: two defects found by this obligation were repaired in sea-query:
+the BETWEEN bounds (`fix:` a5a273d) and, on MySQL, a bare arithmetic / shift pattern after LIKE
+(`a LIKE b + c` is `(a LIKE b) + c` in MySQL, whose LIKE pattern must be a simple_expr; `fix:`
+03bd74c).  All three dialects are proved in full.
 -/
 namespace SeaQ.Props.C05
 open SeaQ.Pratt SeaQ.Dialects SeaQ.Gen.Policy
@@ -32,19 +30,7 @@ theorem opNames_agree : SeaQ.Gen.Policy.opNames = SeaQ.Dialects.opNames := by de
 theorem sqlite_table_ok : TableOKD sqlite sqliteCells sqliteOps := by decide +kernel
 theorem postgres_table_ok : TableOKD postgres postgresCells postgresOps := by decide +kernel
 
-/-- MySQL: the cells (LIKE | NOT LIKE, right operand, arithmetic or shift) are the finding -/
-def mysqlExcludedR (o : Nat) (k : Kind) : Bool :=
-  (o == 2 || o == 3) && (match k with
-    | .bin i => (16 ≤ i && i ≤ 20) || i == 23 || i == 24
-    | _ => false)
-
-def mysqlCellsGuarded : Cells :=
-  { mysqlCells with dropR := fun o k => mysqlCells.dropR o k && !mysqlExcludedR o k }
-
-theorem mysql_table_ok_guarded : TableOKD mysql mysqlCellsGuarded mysqlOps := by decide +kernel
-
-/-- the unguarded MySQL obligation really fails (the finding is not an artefact of the guard) -/
-theorem mysql_table_not_ok : ¬ TableOKD mysql mysqlCells mysqlOps := by decide +kernel
+theorem mysql_table_ok : TableOKD mysql mysqlCells mysqlOps := by decide +kernel
 
 /-- **C05, SQLite.** -/
 theorem sqlite_roundtrip (e : Ex) (hw : wf sqlite sqliteOps e = true) :
@@ -56,13 +42,11 @@ theorem postgres_roundtrip (e : Ex) (hw : wf postgres postgresOps e = true) :
     ∃ f, parseE postgres f 0 (pr (policyOf postgresCells) e) = some (e, []) :=
   parse_print_of_table (TableOK.ofD postgres_table_ok) e hw
 
-/-- **C05, MySQL (partial).** For every tree that the crate prints without using an excluded
-cell (i.e. its rendering is the same under the guarded policy). -/
-theorem mysql_roundtrip_partial (e : Ex) (hw : wf mysql mysqlOps e = true)
-    (hav : pr (policyOf mysqlCells) e = pr (policyOf mysqlCellsGuarded) e) :
-    ∃ f, parseE mysql f 0 (pr (policyOf mysqlCells) e) = some (e, []) := by
-  rw [hav]
-  exact parse_print_of_table (TableOK.ofD mysql_table_ok_guarded) e hw
+/-- **C05, MySQL.** (Since fix 03bd74c a binary operand of LIKE keeps its parentheses on MySQL, whose
+LIKE pattern must be a simple_expr; before it, this obligation failed on exactly those cells.) -/
+theorem mysql_roundtrip (e : Ex) (hw : wf mysql mysqlOps e = true) :
+    ∃ f, parseE mysql f 0 (pr (policyOf mysqlCells) e) = some (e, []) :=
+  parse_print_of_table (TableOK.ofD mysql_table_ok) e hw
 
 /-! Non-vacuity: a well-formed tree with BETWEEN bounds, LIKE..ESCAPE, NOT and a function call,
 and what the crate's policy prints for it. -/
@@ -71,6 +55,7 @@ def ex1 : Ex :=
     (.bin (.atom 48) 2 (.bin (.node 1 (.cons (.bin (.atom 56) 18 (.atom 64)) .nil)) 26 (.atom 2)))
 example : wf sqlite sqliteOps ex1 = true := by decide
 example : wf postgres postgresOps ex1 = true := by decide
+example : wf mysql mysqlOps ex1 = true := by decide
 /-- the parser consumes the whole printed form (and printing the result gives it back) -/
 example : (parseE sqlite 40 0 (pr (policyOf sqliteCells) ex1)).map
       (fun r => (pr (policyOf sqliteCells) r.1, r.2)) = some (pr (policyOf sqliteCells) ex1, []) := by
